@@ -108,6 +108,10 @@ func c14Set(s maptile.Set, z maptile.Zoom) string {
 	return sb.String()
 }
 
+// c14LongFracs: the fractions of a segment at which op `long` questions the cover (the driver has the
+// same list: lean/Driver/C14.lean `longFracs`)
+var c14LongFracs = []float64{0.25, 0.5, 0.75, 0.9, 0.99, 0.999}
+
 func c14Cover(g orb.Geometry, z maptile.Zoom) string {
 	return guard(func() string {
 		s, err := tilecover.Geometry(g, z)
@@ -153,6 +157,55 @@ func runC14(op string, in []string) string {
 		z := maptile.Zoom(pu(r.next()))
 		g := r.geom()
 		return c14Fractions(g, z) + " ; " + c14Cover(g, z)
+	case "long":
+		// a line string whose cover is too large to ship or to model (up to millions of tiles): the
+		// cover is built once and only questioned — its size, and for every vertex and for points at
+		// fixed fractions of every segment (interpolated between the vertices' tile fractions) the
+		// tile and whether the cover holds it
+		z := maptile.Zoom(pu(r.next()))
+		g := r.geom()
+		ls, ok := g.(orb.LineString)
+		if !ok {
+			return "badinput"
+		}
+		return c14Fractions(g, z) + " ; " + guard(func() string {
+			set, err := tilecover.Geometry(ls, z)
+			if err != nil {
+				return "err"
+			}
+			var sb strings.Builder
+			bad := 0
+			for t, v := range set {
+				if !v || t.Z != z {
+					bad++
+				}
+			}
+			fmt.Fprintf(&sb, "n %d %d", len(set), bad)
+			ask := func(x, y float64) {
+				t := maptile.New(uint32(math.Floor(x)), uint32(math.Floor(y)), z)
+				in := 0
+				if set[t] {
+					in = 1
+				}
+				fmt.Fprintf(&sb, " %d %d %d", t.X, t.Y, in)
+			}
+			for i, p := range ls {
+				t := maptile.At(p, z)
+				in := 0
+				if set[t] {
+					in = 1
+				}
+				fmt.Fprintf(&sb, " ; v %d %d %d", t.X, t.Y, in)
+				if i+1 < len(ls) {
+					a, b := maptile.Fraction(p, z), maptile.Fraction(ls[i+1], z)
+					sb.WriteString(" ; s")
+					for _, f := range c14LongFracs {
+						ask(a[0]+f*(b[0]-a[0]), a[1]+f*(b[1]-a[1]))
+					}
+				}
+			}
+			return sb.String()
+		})
 	case "coll":
 		z := maptile.Zoom(pu(r.next()))
 		g := r.geom()
@@ -1213,6 +1266,7 @@ func genC14(c *Ctx) {
 
 	nm := c.Budget / 3
 	genC14Merge(c, nm)
+	genC14Long(c)
 
 	for k := 0; k < c.Budget && !c.Exhausted(); k++ {
 		g := newC14Gen(rng)
@@ -1231,5 +1285,63 @@ func genC14(c *Ctx) {
 				orb.Polygon(nil), orb.MultiPolygon(nil), orb.Collection(nil)}
 			c.Case("cover", fmt.Sprintf("%d %s", g.z, gs(nils[rng.Intn(len(nils))])))
 		}
+	}
+}
+
+// genC14Long: sparse family of LONG segments — 10^4 .. 2*2^z tile steps per segment, far beyond the
+// 900-tile extent of the modelled covers — at zoom 12..21 (op `long`: the cover is questioned, not
+// shipped).  Up to zoom 17 the segments run anywhere in the square (diagonals: up to 2*2^z steps,
+// 262 000 tiles); above, they are long in x only (at most a few hundred rows), up to the whole width
+// at zoom 21 (2.1 million tiles), so that a cover stays below ~2.2 million map entries.
+func genC14Long(c *Ctx) {
+	r := c.Rng
+	cnt := 5
+	if c.Tier == "thorough" {
+		cnt = 24
+	}
+	for k := 0; k < cnt && !c.Exhausted(); k++ {
+		z := 12 + (c.Shard+3*k)%10 // 12..21, every zoom within a few shards
+		if k == 0 {
+			z = 21 // every shard: one segment of more than 2^20 steps (2^21 columns)
+		}
+		g := &c14Gen{r: r, z: z, n: float64(uint64(1) << uint(z))}
+		nv := 2
+		if r.Intn(3) == 0 {
+			nv = 3
+		}
+		ls := make(orb.LineString, 0, nv)
+		x := g.n * (0.003 + 0.1*r.Float64())
+		y := g.n * (0.05 + 0.9*r.Float64())
+		if r.Intn(2) == 0 {
+			x = g.n - x
+		}
+		for i := 0; i < nv; i++ {
+			ls = append(ls, g.toLL(x, y))
+			// the next vertex: across the square in x
+			frac := []float64{0.3, 0.55, 0.8, 0.99}[r.Intn(4)]
+			if k == 0 && i == 0 {
+				frac = 0.8 + 0.19*r.Float64()
+			}
+			if z >= 18 && i >= 1 {
+				frac = 0.01 // one very long segment per high-zoom line is enough
+			}
+			if x < g.n/2 {
+				x += frac * (g.n - x - 0.002*g.n)
+			} else {
+				x -= frac * (x - 0.002*g.n)
+			}
+			if z <= 17 {
+				y = g.n * (0.02 + 0.96*r.Float64())
+			} else {
+				y += (r.Float64()*2 - 1) * 300
+				if y < 0.02*g.n {
+					y = 0.02 * g.n
+				}
+				if y > 0.98*g.n {
+					y = 0.98 * g.n
+				}
+			}
+		}
+		c.Case("long", fmt.Sprintf("%d %s", z, gs(ls)))
 	}
 }
